@@ -216,7 +216,7 @@ class UdpCheck:
             "faults": dict(w.decider.counts), "probes": dict(w.probes), "sim_s": round(w.k.now, 3),
             "events": w.k.nevents, "states": list(w.abstract_states), "taken": w.decider.taken,
             "injections": dict(getattr(w, "injections", {})), "vacuous": getattr(w, "vacuous", False),
-            "thread_exits": w.thread_exits, "nexc": len(w.excs),
+            "thread_exits": w.thread_exits, "nexc": len(w.excs), "maxima": dict(getattr(w, "maxima", {})),
         }
         if case.get("want_sample", True):
             res["sample"] = self.sample(w, case)
